@@ -193,12 +193,16 @@ def run(prop, tier, seed):
                      "res": ev if ev.get("ev") != "p_open" else {"ev": "p_open", "res": ev.get("res")},
                      "sig": "C06:%s:cause=%s" % (pred, cause),
                      "driver_obj": dict({k: by_id[did][k] for k in ("cfg", "setup", "threads", "schedule", "budget", "probe")}, crash_at=[reset["before_step"]], id=did)})
-    # model counterexamples must reproduce
+    # model counterexamples are replayed on the real code
+    model_only = []
     for a in analysed:
         for i, cx in enumerate(a["cex"]):
             did = "cex:%s:%s:%d" % (a["name"], cx["prop"], i)
             if not [v for v in viol if v["driver"].startswith(did + "@")]:
-                raise ToolError("model counterexample %s (crash after %d steps) does not reproduce on the real code" % (did, cx["crash_at"]))
+                # the code took other steps than the model at that point (a changed tree, reported as DRIFT by the
+                # implementation-level validation of C02/C07), or the defect behind the counterexample is gone
+                log("model counterexample %s (crash after %d steps) does not reproduce on the real code" % (did, cx["crash_at"]))
+                model_only.append(did)
     coverage = {
         "states": sum(a["distinct"] for a in analysed), "transitions": sum(a["generated"] for a in analysed),
         "traces_validated_against_impl": len(snaps),
@@ -212,6 +216,7 @@ def run(prop, tier, seed):
         "scenarios": [{"name": a["name"], "distinct": a["distinct"], "safety_rc": a["safety_rc"], "liveness_rc": a["liveness_rc"],
                        "schedules": len(a["schedules"]), "cex": [c["prop"] for c in a["cex"]]} for a in analysed],
         "probe_timeouts": len([v for v in viol if v["pred"] == "ProbeTerminates"]),
+        "model_counterexamples_not_reproduced": model_only,
     }
     assumptions = [
         "crash = process death with the page cache intact (the file holds every completed store); torn pages / power loss are out of scope",
